@@ -1,8 +1,10 @@
-/* C17, node values of SQuIDS::Set_xrange(xi,xf,scale), linear scale, in real arithmetic for EVERY grid length (unbounded): the loop of the extracted
+/* C17, node values of SQuIDS::Set_xrange(xi,xf,scale), linear (SCALE=0) and logarithmic (SCALE=1) scale, in real arithmetic for EVERY grid length (unbounded): the loop of the extracted
  * body carries a loop contract (ghost indices g1, g1+1 in place of a quantifier); goto-instrument --apply-loop-contracts turns it into base case and
  * inductive step, and the VC of the instrumented program goes through the FP->Real swap.  The conversion unsigned -> double of the symbolic counter is the
  * uninterpreted sq_u2r with ground axiom instances (tools/fp2real.py u2r_axioms).  Obligations: invariant base + step, termination measure, and for
- * arbitrary g1 < nx: x[g1] has the documented value, x[0]=xi, x[nx-1]=xf, x[g1] < x[g1+1]. */
+ * arbitrary g1 < nx: x[g1] has the documented value, x[0]=xi, x[nx-1]=xf, x[g1] < x[g1+1].
+ * Log scale: libm exp/log are uninterpreted functions with ground instances of `strictly increasing` and `exp(log a)=a` (tools/l2.py explog_axioms);
+ * CBMC admits no calls inside a loop invariant, so the documented values of nodes g1, g1+1 are computed into ghosts gV0, gV1 before the call. */
 typedef double R; R nondet_R(void); unsigned nondet_u(void);
 enum { TOK_other=0, TOK_linear, TOK_Linear, TOK_lin, TOK_Lin, TOK_log, TOK_Log };
 static int sq_thrown;
@@ -16,6 +18,8 @@ R __CPROVER_uninterpreted_exp(R);
 #define exp(a) __CPROVER_uninterpreted_exp(a)
 static unsigned g1;                                   /* ghost index, fixed before the call */
 #define LINV(k) (xi+(xf-xi)*(R)(k)/(R)(nx-1))
+#define LOGV(k) __CPROVER_uninterpreted_exp(__CPROVER_uninterpreted_log(xi)+(__CPROVER_uninterpreted_log(xf)-__CPROVER_uninterpreted_log(xi))*(R)(k)/(R)(nx-1))
+static R gV0, gV1;                                    /* ghosts: documented log-scale values of nodes g1 and g1+1 */
 static void Set_xrange3(R* x, unsigned nx, R xi, R xf, int type){
 //@BODY file=src/SQuIDS.cpp sig=/void\s+SQuIDS::Set_xrange\s*\(\s*double/ rules=common
 //@SUB /type\s*==\s*"([A-Za-z]+)"/type==TOK_\1/ min=6
@@ -23,7 +27,7 @@ static void Set_xrange3(R* x, unsigned nx, R xi, R xf, int type){
 //@+ __CPROVER_loop_invariant(e1<=nx && (g1<e1 ==> x[g1]==LINV(g1)) && (g1+1<e1 ==> x[g1+1]==LINV(g1+1)))
 //@+ __CPROVER_decreases(nx-e1)
 //@LOOP 1 __CPROVER_assigns(e1, __CPROVER_object_whole(x))
-//@+ __CPROVER_loop_invariant(e1<=nx)
+//@+ __CPROVER_loop_invariant(e1<=nx && (g1<e1 ==> x[g1]==gV0) && (g1+1<e1 ==> x[g1+1]==gV1))
 //@+ __CPROVER_decreases(nx-e1)
 }
 static R X[NXMAX];
@@ -32,10 +36,19 @@ int main(void){
   R xi=nondet_R(), xf=nondet_R(); __CPROVER_assume(xi<xf);
   g1=nondet_u(); __CPROVER_assume(g1<nx);
   sq_thrown=0;
+#if SCALE==0
   int type=TOK_LINNAME;
+#else
+  int type=TOK_LOGNAME; __CPROVER_assume(xi>=1.0e-10);
+  gV0=LOGV(g1); gV1=LOGV(g1+1);
+#endif
   Set_xrange3(X,nx,xi,xf,type);
   __CPROVER_assert(!sq_thrown, "C17: a valid range is accepted");
+#if SCALE==0
   __CPROVER_assert(X[g1]==xi+(xf-xi)*(R)g1/(R)(nx-1), "C17: every node has the documented value");
+#else
+  __CPROVER_assert(X[g1]==gV0, "C17: every node has the documented value");
+#endif
   __CPROVER_assert(g1!=0 || X[g1]==xi, "C17: the first node is the requested lower end");
   __CPROVER_assert(g1!=nx-1 || X[g1]==xf, "C17: the last node is the requested upper end");
   __CPROVER_assert(g1+1>=nx || X[g1]<X[g1+1], "C17: the grid is strictly increasing");
